@@ -251,7 +251,7 @@ def _dispatch(kt):
 
 
 def run(ctx: Ctx) -> None:
-    ctx.level = "model_checking"
+    ctx.level = "exploration"
     ctx.assumptions += [
         "MPSOps.tla (shared with C10) decides the frame rule on the abstraction (represented-state versions, tensor sharing); "
         "its faithfulness is checked by replaying every transition on real objects",
